@@ -321,35 +321,46 @@ def extra_scaling_probe(eng, tier, seed):
     root = _os.path.dirname(_os.path.dirname(_os.path.abspath(__file__)))
     env = dict(_os.environ)
     p = subprocess.Popen([sys.executable, "-c", "import sys; sys.path.insert(0, %r); from specs import c16; c16._scaling_child(%r)"
-                          % (root, tier)], stdout=subprocess.PIPE, stderr=subprocess.DEVNULL, text=True, env=env, cwd=root)
-    current, started = None, _time.time()
+                          % (root, tier)], stdout=subprocess.PIPE, stderr=subprocess.DEVNULL, env=env, cwd=root, bufsize=0)
+    fd = p.stdout.fileno()
+    current, started, pending, eof = None, _time.time(), b"", False
     try:
-        while True:
+        while not eof:
+            # complete lines first (several may arrive in one read), then wait for more under the current deadline
+            while b"\n" in pending:
+                raw, pending = pending.split(b"\n", 1)
+                w = raw.decode("ascii", "replace").split()
+                if not w:
+                    continue
+                if w[0] == "START":
+                    current, started = int(w[1]), _time.time()
+                elif w[0] == "DONE":
+                    checked += 1
+                    slowest = max(slowest, float(w[2]))
+                    current, started = None, _time.time()
+                elif w[0] == "MEMORY":
+                    violations.append({"name": "C16/native#analytic-queries-within-time-limit",
+                                       "concrete": {"type": labels[int(w[1])]}, "detail": "MemoryError"})
+                    current, started = None, _time.time()
             budget = (limit if current is not None else 120) - (_time.time() - started)  # 120 s to import and start
             if budget <= 0:
                 break
-            r, _, _ = select.select([p.stdout], [], [], budget)
+            r, _, _ = select.select([fd], [], [], budget)
             if not r:
                 break
-            line = p.stdout.readline()
-            if not line:
-                current = None if p.wait() == 0 else current
-                break
-            w = line.split()
-            if w[0] == "START":
-                current, started = int(w[1]), _time.time()
-            elif w[0] == "DONE":
-                checked += 1
-                slowest = max(slowest, float(w[2]))
-                current, started = None, _time.time()
-            elif w[0] == "MEMORY":
-                violations.append({"name": "C16/native#analytic-queries-within-time-limit",
-                                   "concrete": {"type": labels[int(w[1])]}, "detail": "MemoryError"})
-                current, started = None, _time.time()
+            chunk = _os.read(fd, 65536)
+            if not chunk:
+                eof = True
+            pending += chunk
     finally:
         if p.poll() is None:
             p.kill()
-            p.wait()
+        p.wait()
+    if eof and p.returncode == 0:
+        current = None
+    elif eof:
+        raise RuntimeError("the scaling probe's child process crashed (exit %s) in case %s" % (
+            p.returncode, labels[current] if current is not None else "?"))
     if current is not None:
         violations.append({"name": "C16/native#analytic-queries-within-time-limit", "concrete": {"type": labels[current]},
                            "detail": "min/max/alignment/equality/hash/extent/offset queries did not finish within %d s" % limit})
